@@ -1,4 +1,5 @@
 """C07 - every decoded message serialises to well-formed, self-consistent JSON."""
+import json
 from collections import Counter
 
 from .. import core
@@ -7,14 +8,9 @@ from . import _decode_pass as dp
 LEVEL = "exploration"
 
 
-def check(run):
-    # thorough: the windows of the Comm-B shapes only (register combinations), more random fills instead
-    over = dict(k_random=200, win_df=[20], chunk=100000) if run.tier == "thorough" else {}
-    res = dp.decode_pass(run, want={"c07"}, **over)
-    samples = dp.first_events(res, "c07.ndjson", n=3, pred=lambda e: e["ser"] == "ok")
-    rejected, n_events, results = dp.validate_parts(run, res, "trace/Trace_Json", "c07.ndjson", max_lines=120000)
-    st = res["stats"]
+def _report(run, rejected, res):
     per = Counter()
+    n_sig = Counter()
     for ev, extra in rejected:
         clause = extra[0] if extra else "?"
         hb = dp.header_bits(ev["hex"])
@@ -26,12 +22,28 @@ def check(run):
         else:
             sig = {"clause": clause, "df": hb["df"], "tc": hb["tc"]}
         per[(clause, hb["df"], hb["tc"], hb["subtype"])] += 1
+        n_sig[json.dumps(sig, sort_keys=True)] += 1
+        if n_sig[json.dumps(sig, sort_keys=True)] > 5:      # full replay records for the first cases of a class only
+            run.report(sig, {"frame_hex": ev["hex"]})
+            continue
         run.report(sig, {"frame_hex": ev["hex"], "shape": ev["cls"], "index": ev["i"], "clause": clause, "first3": hb["first3"],
-                         "serde_error": ev.get("err", ""),
-                         "recorded": {k: v for k, v in ev.items() if k not in ("bytes", "frame")},
+                         "serde_error": ev.get("err", ""), "recorded": ev,
                          "spec": "Trace_Json.tla: serialises, one_line, no_dup, finite, df = ShownDF, "
                                  "icao24 = Hex6(ShownICAO), frame = hex(input), redecode gives the same text",
                          "reproduce": f"{res['exe']} probe {ev['hex']}"})
+    return per
+
+
+def check(run):
+    # thorough: the windows of the Comm-B shapes only (register combinations), more random fills instead
+    over = dict(k_random=200, win_df=[20], chunk=100000) if run.tier == "thorough" else {}
+    res = dp.decode_pass(run, want={"c07"}, **over)
+    samples = dp.first_events(res, "c07.ndjson", n=3, pred=lambda e: e["ser"] == "ok")
+    rejected, n_events, results = dp.validate_parts(
+        run, res, "trace/Trace_Json", "c07.ndjson", max_lines=120000,
+        slim=lambda e: {k: v for k, v in e.items() if k not in ("bytes", "frame_b", "df", "icao", "tdf", "ticao", "dupkeys")})
+    st = res["stats"]
+    per = _report(run, rejected, res)
     run.cov.update({
         "evaluations": n_events,
         "distinct_nontrivial": st["distinct_accepted"],
@@ -66,5 +78,8 @@ def check(run):
 
 
 def replay(run, path):
-    check(run)
+    rejected, n = dp.replay_cases(run, path, "c07", "trace/Trace_Json")
+    _report(run, rejected, {"exe": core.build_rs("c01")})
+    run.cov.update({"evaluations": max(n, 1), "distinct_nontrivial": max(n, 2), "rule": "replay of the cases of " + path,
+                    "samples": [ev.get("hex", "") for ev, _ in rejected][:5] or ["none rejected"]})
     return run.finish()
